@@ -7,7 +7,7 @@
 From Coq Require Import String.
 From Coq Require Import List NArith ZArith Bool.
 From SK Require Import lib.LGraph lib.C01_GraphLemmas model.C01_Model model.C02_Model model.C01_Opts model.C01_String model.C01_Renum model.C01_Attrs model.C01_CleanWc model.C01_Rsmi model.C01_Nbrs model.C01_Rewrite model.C01_Conv model.C01_G2M model.C01_DecRaw model.C01_HBal model.C01_M2GIdx model.C01_Prem
-  proof.C01_Proof proof.C01_OptsProof proof.C01_StringProof proof.C01_StringHyd proof.C01_StringPipe proof.C01_StringEH proof.C01_StringRenum proof.C01_StringHydExt proof.C01_RenumCentre proof.C01_RenumWrite proof.C01_StringEHwf proof.C01_AttrsProof proof.C01_StringPipeH proof.C01_CleanWcProof proof.C01_RsmiProof proof.C01_NbrsProof proof.C01_RewriteProof proof.C01_ConvProof proof.C01_G2MProof proof.C01_WriteExt proof.C01_RewriteCheck proof.C01_DecRawProof proof.C01_HBalProof proof.C01_HBalString proof.C01_HBalEH proof.C01_M2GIndex proof.C01_ReadWrite proof.C01_HBalW proof.C01_PremProof proof.C01_Capstone.
+  proof.C01_Proof proof.C01_OptsProof proof.C01_StringProof proof.C01_StringHyd proof.C01_StringPipe proof.C01_StringEH proof.C01_StringRenum proof.C01_StringHydExt proof.C01_RenumCentre proof.C01_RenumWrite proof.C01_StringEHwf proof.C01_AttrsProof proof.C01_StringPipeH proof.C01_CleanWcProof proof.C01_RsmiProof proof.C01_NbrsProof proof.C01_RewriteProof proof.C01_ConvProof proof.C01_G2MProof proof.C01_WriteExt proof.C01_RewriteCheck proof.C01_DecRawProof proof.C01_HBalProof proof.C01_HBalString proof.C01_HBalEH proof.C01_M2GIndex proof.C01_ReadWrite proof.C01_HBalW proof.C01_PremProof proof.C01_Capstone proof.C01_ReverseWrite.
 Import ListNotations.
 Local Open Scope Z_scope.
 
@@ -813,3 +813,14 @@ Theorem C01_capstone : forall mr mp : rmol, reaction_okb mr mp = true ->
   (exists wr wp, its_to_wmols I = Some (wr, wp)).
 Proof. exact capstone. Qed.
 Print Assumptions C01_capstone.
+
+(** 53. "every reversal" on the WRITER side: for a balanced pair with atom_map = node id in which no atom changes its element,
+        the reversed reaction has the same preserve set (the hydrogens of its reaction centre) and its_to_rsmi hands to
+        GraphToMol, side for side exchanged, the same two graphs as for the reaction itself *)
+Theorem C01_reverse_written : forall G H : mgraph, wf G -> wf H -> same_nodes G H -> amap_id G -> amap_id H ->
+  (forall n a b, label G n = Some a -> label H n = Some b -> g_el a = g_el b) ->
+  (forall z, In z (hlist (its_construct H G)) <-> In z (hlist (its_construct G H))) /\
+  geq (fst (its_to_graphs (its_construct H G))) (snd (its_to_graphs (its_construct G H))) /\
+  geq (snd (its_to_graphs (its_construct H G))) (fst (its_to_graphs (its_construct G H))).
+Proof. exact reverse_written. Qed.
+Print Assumptions C01_reverse_written.
